@@ -309,14 +309,13 @@ def cases(dc, journal='wal'):
     """Yield (cls, label, make, dirs_of, call, fault, retry, timeout, expect)."""
     def mk_cache(stats=False, policy='least-recently-stored'):
         def make(d, timeout):
-            c = dc.Cache(d, timeout=timeout, disk_min_file_size=T, statistics=stats, eviction_policy=policy,
-                         sqlite_journal_mode=journal)
+            c = dc.Cache(d, timeout=timeout, disk_min_file_size=T, statistics=stats, eviction_policy=policy, **common.journal_kw(journal))
             populate(c)
             return c
         return make
 
     def mk_bulk(d, timeout):
-        c = dc.Cache(d, timeout=timeout, disk_min_file_size=T, sqlite_journal_mode=journal)
+        c = dc.Cache(d, timeout=timeout, disk_min_file_size=T, **common.journal_kw(journal))
         for i in range(230):
             c.set('k%03d' % i, BIG if i % 40 == 0 else i, tag='bulk', expire=1000)
         c.reset('size_limit', 1)          # cull() will want to evict everything
@@ -373,7 +372,7 @@ def cases(dc, journal='wal'):
 
     # FanoutCache: reports, never raises
     def mk_fan(d, timeout):
-        f = dc.FanoutCache(d, shards=3, timeout=timeout, disk_min_file_size=T, sqlite_journal_mode=journal)
+        f = dc.FanoutCache(d, shards=3, timeout=timeout, disk_min_file_size=T, **common.journal_kw(journal))
         f.set('f', BIG, tag='t')
         f.set('s', 'small')
         f.set('n', 5)
